@@ -64,6 +64,18 @@ def distributions(d, ctx):
     sal = None
     if d.bool() and which != 'cacg':
         sal = rng.uniform(0.2, 2.0, size=(*lead, N))
+        # other dtypes of the weights: selection masks (boolean, a different
+        # number of selected frames per slice), counts, single precision
+        sk = ['float64', 'float64', 'bool', 'int', 'float32'][int(d.aux(61).integers(0, 5))]
+        if sk == 'bool':
+            sal = sal > np.quantile(sal, d.aux(62).uniform(0.1, 0.5, size=(*lead, 1)),
+                                    axis=-1).reshape(-1)[:1].item() if False else \
+                (sal > 0.2 + 1.6 * d.aux(62).uniform(0.1, 0.5, size=(*lead, 1)))
+            sal[..., :D + 1] = True
+        elif sk == 'int':
+            sal = np.ceil(sal * 2).astype(np.int64)
+        elif sk == 'float32':
+            sal = sal.astype(np.float32)
     ctx.describe(which=which, lead=lead, D=D, N=N, saliency=sal is not None, spread=spread)
     ctx.label(which, f'naxes={len(lead)}', f'slices={min(int(np.prod(lead)), 6)}')
 
